@@ -17,6 +17,9 @@ pub struct ArchM {
     pub creations: u64,
     /// predicted archetype version (starts at 1, +1 per removal; preset by the hook)
     pub ver: u64,
+    /// last archetype version observed through the hook, and the removal count at that time
+    pub ver_obs: u64,
+    pub rem_at_obs: u64,
     pub preset: bool,
     pub created_ev: Vec<Bits>,
     pub destroyed_ev: Vec<Bits>,
@@ -43,7 +46,7 @@ impl Model {
         Model {
             archs: caps
                 .iter()
-                .map(|c| ArchM { len: 0, cap: *c, removals: 0, creations: 0, ver: 1, preset: false, created_ev: Vec::new(), destroyed_ev: Vec::new() })
+                .map(|c| ArchM { len: 0, cap: *c, removals: 0, creations: 0, ver: 1, ver_obs: 0, rem_at_obs: 0, preset: false, created_ev: Vec::new(), destroyed_ev: Vec::new() })
                 .collect(),
             ents: BTreeMap::new(),
             issued: BTreeSet::new(),
